@@ -1,7 +1,7 @@
 SPECIFICATION Spec
 CONSTANTS
   MaxPayload = 2
-  NTxn = 3
+  NTxn = 2
   Variants = {"varz", "raw"}
   Partial = {1, 2, 3, 4, 5}
   ReopenOnStall = TRUE
